@@ -20,9 +20,10 @@ LEVEL = "exploration"
 ANCHOR_FILES = ["quantem/core/utils/imaging_utils.py", "quantem/diffractive_imaging/direct_ptycho_utils.py"]
 RULE = (
     "seeded matrix: kind (itoh = wrapped smooth field, unwrapped = the smooth field itself, any = arbitrary input judged for 2pi-integrality only, "
-    "bf = unwrap_bf_overlap_phase_torch embedding, poisson = recorded only) x field family (ramp, quadratic, Gaussian bumps, band-limited random, "
-    "periodic sines) x mask class (none, blob, holes, multi-component, single pixels, diagonal-only contacts, seam-connected) x wrap_around x "
-    "grid size class (tiny 1..3 rows/cols, small, medium, large up to 40) x max neighbour difference in {0.5,1,2,2.8}; disconnected regions get "
+    "bf = unwrap_bf_overlap_phase_torch embedding, reuse = one caller-owned tensor used for 3-4 calls with different masks / wrap_around, poisson = recorded only) x field family (ramp, quadratic, Gaussian bumps, band-limited random, "
+    "periodic sines, ramp + bounded jitter) x mask class (none, blob, holes, multi-component, single pixels, diagonal-only contacts, seam-connected, "
+    "one-pixel-wide serpentine and spiral paths) x wrap_around x "
+    "grid size class (tiny 1..3 rows/cols, small, medium, large up to 40, long = 1..3 x 60..300) x max neighbour difference in {0.5,1,2,2.8}; disconnected regions get "
     "independent arbitrary offsets. non-trivial = the true field crosses at least one 2pi boundary inside a region (a wrap must be undone) and, "
     "if masked, the mask has >= 2 regions or a hole; distinct = (kind, family, mask class, wrap_around, size class)"
 )
@@ -30,17 +31,19 @@ ASSUMPTIONS = [
     "premise enforced by construction: |difference| <= 2.8 < pi along every edge the algorithm uses (mask-internal 4-neighbour pairs; seam pairs too when wrap_around=True); nothing is assumed across region boundaries or diagonal contacts",
     "inputs are float32 tensors (the code accumulates in float32); the constancy/integrality bound is max(1e-4, 512*eps32*amplitude) rad with amplitude = max(2pi, max|phi|, max|out|); residuals are recorded as a fraction of that bound (worst measured fraction is in worst_residuals: >= 100x head-room), and the bound is orders of magnitude below the 2pi of any mis-assigned wrap",
     "values outside the mask are arbitrary finite numbers and are not judged; NaN/inf inputs are outside the domain",
+    "argument tensors (phase, mask, bf data/masks) are compared with snapshots after every call; the depth of the union-find forest is read by a wrapper on _final_offsets (informational: skipped and listed in hooks_missing if that name disappears)",
     "the Poisson method is outside the exactness claim: executed and recorded (deviation from the generating field), not judged",
 ]
 BUDGET = {"quick": {"soft_s": 150}, "thorough": {"soft_s": 900}}
 MIN_EVALUATIONS = {"quick": 2000, "thorough": 12000}
-REQUIRED_COUNTERS = ["eval:not_constant_on_region", "eval:non_integer_multiple", "eval:unwrapped_input_changed", "eval:bf_not_constant_on_region"]
+REQUIRED_COUNTERS = ["eval:not_constant_on_region", "eval:non_integer_multiple", "eval:unwrapped_input_changed", "eval:bf_not_constant_on_region", "eval:argument_modified"]
 
-FAMILIES = ["ramp", "quadratic", "bumps", "bandlimited", "sines"]
+FAMILIES = ["ramp", "quadratic", "bumps", "bandlimited", "sines", "jitter_ramp"]
 PERIODIC = ("bandlimited", "sines")
-MASKS = ["none", "blob", "holes", "multi", "singles", "diagonal", "seam"]
+MASKS = ["none", "blob", "holes", "multi", "singles", "diagonal", "seam", "serpentine", "spiral"]
+PATH_MASKS = ("serpentine", "spiral")  # one-pixel-wide paths: long chains, deep union-find trees
 TARGETS = [0.5, 1.0, 2.0, 2.8]
-SIZES = ["tiny", "small", "medium", "large"]
+SIZES = ["tiny", "small", "medium", "large", "long"]
 EPS32 = float(np.finfo(np.float32).eps)
 
 
@@ -50,14 +53,16 @@ def plan(tier, seed):
     specs = []
 
     def size():
-        return SIZES[int(rng.choice(4, p=[0.15, 0.35, 0.35, 0.15]))]
+        return SIZES[int(rng.choice(5, p=[0.12, 0.30, 0.30, 0.13, 0.15]))]
 
-    reps = 10 if quick else 320
+    reps = 10 if quick else 200
     for fam, mask, wrap in itertools.product(FAMILIES, MASKS, [True, False]):
         if wrap and mask == "none" and fam not in PERIODIC:
             continue  # the seam edges would be the only large differences: scaled to a trivial field
         if mask == "seam" and (not wrap or fam not in PERIODIC):
             continue
+        if mask in PATH_MASKS and wrap and fam not in PERIODIC:
+            continue  # the path ends meet across the seam: same scaling argument
         for r in range(reps * 3):
             specs.append({"kind": "itoh", "family": fam, "mask": mask, "wrap": wrap, "size": size(), "target": TARGETS[int(rng.integers(4))]})
         for r in range(reps):
@@ -68,6 +73,12 @@ def plan(tier, seed):
     for fam, lens, two_pass, wrap in itertools.product(FAMILIES, ["lens", "lens_holes", "two_lobes", "full"], [True, False], ["default", False]):
         for r in range(reps):
             specs.append({"kind": "bf", "family": fam, "mask": lens, "two_pass": two_pass, "wrap": wrap, "size": ["small", "medium"][int(rng.integers(2))], "target": TARGETS[int(rng.integers(1, 4))]})
+    # the same caller-owned tensor is used for several calls (other mask / no mask / other wrap_around)
+    for fam, wrap in itertools.product(FAMILIES, [True, False]):
+        if wrap and fam not in PERIODIC:
+            continue
+        for r in range(reps * 3):
+            specs.append({"kind": "reuse", "family": fam, "mask": "none", "wrap": wrap, "size": size(), "target": TARGETS[int(rng.integers(4))]})
     for fam in PERIODIC:
         for mask in ["none", "blob"]:
             for r in range(reps):
@@ -82,6 +93,28 @@ def setup(ctx):
     from quantem.diffractive_imaging import direct_ptycho_utils
 
     ctx.state.update(torch=torch, iu=imaging_utils, dpu=direct_ptycho_utils)
+
+    # additional observability (not deciding): depth of the union-find forest handed to _final_offsets
+    from vf import hook
+
+    def pre(args, kwargs):
+        try:
+            uf = args[0] if args else kwargs.get("uf")
+            parent = uf.parent.detach().cpu().numpy()
+            cur = np.arange(parent.size)
+            depth = 0
+            while depth < 64:
+                nxt = parent[cur]
+                if np.array_equal(nxt, cur):
+                    break
+                cur = nxt
+                depth += 1
+            ctx.state["depth"] = max(ctx.state.get("depth", 0), depth)
+        except Exception:  # noqa: BLE001  (the probe must never disturb the execution)
+            ctx.count("depth_probe_failed")
+        return None
+
+    hook.wrap(imaging_utils, "_final_offsets", pre=pre, ctx=ctx)
 
 
 # ------------------------------------------------------------------------------------------------
@@ -153,6 +186,10 @@ def _shape(rng, size):
         a = int(rng.integers(1, 4))
         b = int(rng.integers(2, 13))
         return (a, b) if rng.random() < 0.5 else (b, a)
+    if size == "long":
+        a = int(rng.integers(1, 4))
+        b = int(rng.integers(60, 301))
+        return (a, b) if rng.random() < 0.5 else (b, a)
     lo, hi = {"small": (4, 10), "medium": (11, 24), "large": (25, 40)}[size]
     H = int(rng.integers(lo, hi + 1))
     W = int(rng.integers(lo, hi + 1)) if rng.random() < 0.7 else H
@@ -175,6 +212,9 @@ def _field(rng, fam, H, W):
             s = rng.uniform(0.1, 0.5) * max(H, W, 3)
             f += rng.normal() * np.exp(-((x - cx) ** 2 + (y - cy) ** 2) / (2 * s * s))
         return f + 0.05 * rng.normal() * x
+    if fam == "jitter_ramp":  # ramp plus bounded sample-to-sample jitter (random reliability order)
+        a, b = rng.normal(size=2)
+        return a * x + b * y + rng.uniform(-0.5, 0.5, size=(H, W)) * rng.uniform(0.3, 1.5) * max(abs(a), abs(b), 0.1)
     if fam == "bandlimited":
         ky = np.fft.fftfreq(H)[:, None]
         kx = np.fft.fftfreq(W)[None, :]
@@ -237,6 +277,40 @@ def _mask(rng, cls, H, W):
         m = ((y // s) + (x // s)) % 2 == 0  # blocks that touch only at their corners
         if rng.random() < 0.5:
             m &= rng.random((H, W)) < 0.9
+    elif cls == "serpentine":  # one-pixel-wide boustrophedon path
+        m = np.zeros((H, W), bool)
+        if rng.random() < 0.5:
+            m[::2, :] = True
+            for k, i in enumerate(range(1, H, 2)):
+                if i + 1 < H:
+                    m[i, W - 1 if k % 2 == 0 else 0] = True
+        else:
+            m[:, ::2] = True
+            for k, j in enumerate(range(1, W, 2)):
+                if j + 1 < W:
+                    m[H - 1 if k % 2 == 0 else 0, j] = True
+    elif cls == "spiral":  # one-pixel-wide rectangular spiral with one-pixel gaps
+        m = np.zeros((H, W), bool)
+        top, left, bottom, right = 0, 0, H - 1, W - 1
+        i, j = 0, 0
+        m[i, j] = True
+        di, dj = 0, 1
+        lim = [top, left, bottom, right]
+        turns_without_move = 0
+        while turns_without_move < 2:
+            moved = False
+            while True:
+                a, b = i + di, j + dj
+                a2, b2 = a + di, b + dj
+                if not (lim[0] <= a <= lim[2] and lim[1] <= b <= lim[3]):
+                    break
+                if lim[0] <= a2 <= lim[2] and lim[1] <= b2 <= lim[3] and m[a2, b2]:
+                    break  # keep a one-pixel gap to the previous turn
+                i, j = a, b
+                m[i, j] = True
+                moved = True
+            di, dj = dj, -di  # turn right
+            turns_without_move = 0 if moved else turns_without_move + 1
     else:  # seam: connected only through the periodic boundary
         m = np.zeros((H, W), bool)
         if rng.random() < 0.5 and W >= 4:
@@ -300,6 +374,8 @@ def _bound(*arrays):
 
 def _size_class(H, W):
     m = min(H, W)
+    if m <= 3 and max(H, W) >= 60:
+        return "long"
     return "tiny" if m <= 3 else "small" if max(H, W) <= 10 else "medium" if max(H, W) <= 24 else "large"
 
 
@@ -334,11 +410,19 @@ def _judge_integer(ctx, out, inp, mask, bound, common, what):
     return worst
 
 
-def _call_unwrap(ctx, arr32, mask, wrap, method="reliability-sorting", pass_mask=True):
+def _call_unwrap(ctx, arr32, mask, wrap, method="reliability-sorting", pass_mask=True, tensor=None, common=None):
+    """one call of the public function; the caller's tensors are compared with snapshots afterwards.
+    `tensor`: reuse this caller-owned tensor object (its current content must equal arr32)."""
     torch, iu = ctx.state["torch"], ctx.state["iu"]
-    t = torch.from_numpy(np.ascontiguousarray(arr32))
-    m = torch.from_numpy(np.ascontiguousarray(mask)) if pass_mask else None
+    t = tensor if tensor is not None else torch.from_numpy(np.array(arr32, dtype=np.float32, order="C"))
+    mk = np.array(mask, dtype=bool, order="C")
+    m = torch.from_numpy(mk) if pass_mask else None
     out = iu.unwrap_phase_2d_torch(t, method=method, mask=m, wrap_around=wrap)
+    if method == "reliability-sorting":
+        f = dict(common or {})
+        ctx.check(np.array_equal(t.detach().cpu().numpy(), arr32, equal_nan=True), "argument_modified", lambda: "unwrap_phase_2d_torch changed the caller's phase tensor in place (%d of %d samples, mask passed: %s)" % (int(np.sum(t.detach().cpu().numpy() != arr32)), arr32.size, pass_mask), function="unwrap_phase_2d_torch", argument="phi_wrapped", **f)
+        if pass_mask:
+            ctx.check(np.array_equal(mk, mask), "argument_modified", "unwrap_phase_2d_torch changed the caller's mask in place", function="unwrap_phase_2d_torch", argument="mask", **f)
     return out
 
 
@@ -357,7 +441,7 @@ def _run_itoh(spec, idx, ctx, unwrapped=False):
     inp = _outside(rng, src, mask, int(rng.integers(0, 2)) if spec["mask"] != "none" else 2).astype(np.float32)
     pass_mask = spec["mask"] != "none" or rng.random() < 0.3
     common = {"family": spec["family"], "mask_class": spec["mask"], "wrap_around": wrap, "size_class": _size_class(H, W), "regions": _nreg_class(n), "input": "unwrapped" if unwrapped else "wrapped"}
-    out_t = _call_unwrap(ctx, inp, mask, wrap, pass_mask=pass_mask)
+    out_t = _call_unwrap(ctx, inp, mask, wrap, pass_mask=pass_mask, common=common)
     ok, out = _check_output(ctx, out_t, (H, W), common)
     if not ok:
         return
@@ -378,7 +462,7 @@ def _run_itoh(spec, idx, ctx, unwrapped=False):
     wraps = any(np.ptp(k[lab == r]) > 0 for r in range(n))
     structured = spec["mask"] == "none" or n >= 2 or has_hole(mask)
     ctx.nontrivial((spec["kind"], spec["family"], spec["mask"], wrap, _size_class(H, W)), wraps and structured)
-    ctx.observe(shape=[H, W], regions=n, mask_pixels=int(mask.sum()), wraps=bool(wraps), range_rad=float(np.ptp(phi[mask])), worst_spread=worst, worst_integrality=wint, bound=bound)
+    ctx.observe(shape=[H, W], regions=n, mask_pixels=int(mask.sum()), wraps=bool(wraps), range_rad=float(np.ptp(phi[mask])), worst_spread=worst, worst_integrality=wint, bound=bound, tree_depth=ctx.state.get("depth"))
 
 
 def _run_any(spec, idx, ctx):
@@ -402,7 +486,7 @@ def _run_any(spec, idx, ctx):
         a = _wrap(rng.uniform(3.3, 6.0) * x + rng.uniform(-6, 6) * y)
     inp = a.astype(np.float32)
     common = {"family": kind, "mask_class": spec["mask"], "wrap_around": wrap, "size_class": _size_class(H, W), "regions": "n/a", "input": "arbitrary"}
-    out_t = _call_unwrap(ctx, inp, mask, wrap, pass_mask=spec["mask"] != "none")
+    out_t = _call_unwrap(ctx, inp, mask, wrap, pass_mask=spec["mask"] != "none", common=common)
     ok, out = _check_output(ctx, out_t, (H, W), common)
     if not ok:
         return
@@ -447,8 +531,11 @@ def _run_bf(spec, idx, ctx):
     amp = rng.uniform(0.1, 3.0, size=(H, W))
     phase_in = np.where(m, phi, rng.uniform(-np.pi, np.pi, size=(H, W)))
     data = (amp * np.exp(1j * phase_in))[bf].astype(np.complex64)
-    out_t = dpu.unwrap_bf_overlap_phase_torch(torch.from_numpy(data), torch.from_numpy(m[bf]), torch.from_numpy(bf), two_pass=bool(spec["two_pass"]), **kwargs)
     common = {"family": spec["family"], "mask_class": spec["mask"], "wrap_around": "default" if periodic else False, "size_class": _size_class(H, W), "regions": _nreg_class(n), "two_pass": bool(spec["two_pass"])}
+    a_data, a_mask, a_bf = data.copy(), np.array(m[bf]), bf.copy()
+    out_t = dpu.unwrap_bf_overlap_phase_torch(torch.from_numpy(a_data), torch.from_numpy(a_mask), torch.from_numpy(a_bf), two_pass=bool(spec["two_pass"]), **kwargs)
+    for name, before, after in (("complex_data_bf", data, a_data), ("mask_bf", m[bf], a_mask), ("bf_mask", bf, a_bf)):
+        ctx.check(np.array_equal(before, after), "argument_modified", "unwrap_bf_overlap_phase_torch changed its argument %s in place" % name, function="unwrap_bf_overlap_phase_torch", argument=name, **common)
     ok = ctx.check(tuple(out_t.shape) == (int(bf.sum()),), "shape_changed", "output shape %s, expected (%d,)" % (tuple(out_t.shape), int(bf.sum())), **common)
     if not ok:
         return
@@ -461,7 +548,39 @@ def _run_bf(spec, idx, ctx):
     k = np.round(phi / (2 * np.pi))
     wraps = any(np.ptp(k[lab == r_]) > 0 for r_ in range(n))
     ctx.nontrivial(("bf", spec["family"], spec["mask"], spec["wrap"], bool(spec["two_pass"])), wraps)
-    ctx.observe(shape=[H, W], bf_pixels=int(bf.sum()), mask_pixels=int(m.sum()), regions=n, wraps=bool(wraps), worst_spread=worst, bound=bound)
+    ctx.observe(shape=[H, W], bf_pixels=int(bf.sum()), mask_pixels=int(m.sum()), regions=n, wraps=bool(wraps), worst_spread=worst, bound=bound, tree_depth=ctx.state.get("depth"))
+
+
+def _run_reuse(spec, idx, ctx):
+    """One caller-owned wrapped tensor, several calls: sub-mask, another sub-mask, no mask, other wrap_around.
+    The field is Itoh-smooth along every edge of the full (periodic if spec.wrap) grid, so every call is in the domain."""
+    torch = ctx.state["torch"]
+    rng = ctx.rng(idx)
+    phi, full, _, _ = _scene(rng, spec)  # mask class "none": the whole grid, one region, one offset
+    H, W = phi.shape
+    w0 = bool(spec["wrap"])
+    inp = _wrap(phi).astype(np.float32)
+    tensor = torch.from_numpy(inp.copy())  # the caller's tensor, never re-created below
+    calls = []
+    for k in range(int(rng.integers(2, 4))):
+        cls = ["blob", "holes", "multi", "singles", "diagonal", "serpentine", "spiral"][int(rng.integers(7))]
+        calls.append((cls, _mask(rng, cls, H, W), True, w0 and bool(rng.random() < 0.5)))
+    calls.append(("none", full, bool(rng.random() < 0.5), w0 and bool(rng.random() < 0.7)))  # finally the whole field
+    worst = 0.0
+    for k, (cls, mask, pass_mask, wrap) in enumerate(calls):
+        lab, n = label_regions(mask, wrap)
+        common = {"family": spec["family"], "mask_class": cls, "wrap_around": wrap, "size_class": _size_class(H, W), "regions": _nreg_class(n), "input": "wrapped", "call": "first" if k == 0 else "reused_tensor"}
+        out_t = _call_unwrap(ctx, inp, mask, wrap, pass_mask=pass_mask, tensor=tensor, common=common)
+        ok, out = _check_output(ctx, out_t, (H, W), common)
+        if not ok:
+            return
+        bound = _bound(phi[mask], out[mask])
+        what = "%dx%d %s call %d of %d on the same tensor, mask=%s wrap_around=%s target=%.1f" % (H, W, spec["family"], k + 1, len(calls), cls, wrap, spec["target"])
+        worst = max(worst, _judge_regions(ctx, "not_constant_on_region", out, phi, lab, n, bound, common, what))
+        _judge_integer(ctx, out, inp.astype(np.float64), mask, bound, common, what)
+    wraps = bool(np.ptp(np.round(phi / (2 * np.pi))) > 0)
+    ctx.nontrivial(("reuse", spec["family"], w0, _size_class(H, W)), wraps)
+    ctx.observe(shape=[H, W], calls=[c[0] for c in calls], wraps=wraps, worst_spread=worst, tree_depth=ctx.state.get("depth"))
 
 
 def _run_poisson(spec, idx, ctx):
@@ -485,6 +604,7 @@ def _run_poisson(spec, idx, ctx):
 
 def run_case(spec, idx, ctx):
     k = spec["kind"]
+    ctx.state["depth"] = 0
     if k == "itoh":
         _run_itoh(spec, idx, ctx)
     elif k == "unwrapped":
@@ -493,13 +613,21 @@ def run_case(spec, idx, ctx):
         _run_any(spec, idx, ctx)
     elif k == "bf":
         _run_bf(spec, idx, ctx)
+    elif k == "reuse":
+        _run_reuse(spec, idx, ctx)
     else:
         _run_poisson(spec, idx, ctx)
 
 
 def summarize(all_cases, counters, extras):
     dev = [c["obs"].get("poisson_max_deviation_after_mean_removal") for c in all_cases if "poisson_max_deviation_after_mean_removal" in c["obs"]]
+    hist = {}
+    for c in all_cases:
+        d = c["obs"].get("tree_depth")
+        if d is not None:
+            hist[str(d)] = hist.get(str(d), 0) + 1
     return {
+        "union_find_max_tree_depth_per_case_histogram": dict(sorted(hist.items(), key=lambda kv: int(kv[0]))),
         "poisson_recorded_not_judged": {"runs": len(dev), "max_deviation_rad": max(dev) if dev else None, "median_deviation_rad": float(np.median(dev)) if dev else None},
         "cases_with_wraps": sum(1 for c in all_cases if c["obs"].get("wraps")),
         "max_regions_in_a_case": max([c["obs"].get("regions", 0) or 0 for c in all_cases] + [0]),
